@@ -413,27 +413,31 @@ CHECKS = {
                "bit-exact vm_compute correspondence + closed-form search",
  },
  "C18": {
-  "text": "Theorems (every n, every network, every pseudo-inverse R with "
-          "R L = L R = I - J/n): effective resistance R_aa - R_ab - R_ba + "
-          "R_bb is symmetric, zero on the diagonal, equals the potential drop "
-          "of ANY solution of Kirchhoff's equations for a unit current (hence "
-          "does not depend on which pseudo-inverse was computed), scales "
-          "linearly with the resistances (Laplacian / k, pseudo-inverse * k); "
-          "series and parallel laws for all non-zero symbolic resistances; "
-          "Foster's theorem (sum of conductance * effective resistance over "
-          "ordered pairs = 2(n-1)); with non-negative conductances every "
-          "effective resistance is non-negative (it equals the dissipated "
-          "energy 1/2 sum c_ij (v_i - v_j)^2 of the unit current). The two C "
-          "current-flow routines, "
-          "regenerated from src_numerics.c as Gallina sums, equal the "
-          "defining sums for every N; the state machine with the "
-          "update_R-resets flag read from the source answers every query "
-          "after any history of updates from the current resistances "
-          "(refuted with a witness when the flag is off). Not proved "
-          "(search only): triangle inequality, Rayleigh path bound, strict "
-          "positivity between distinct nodes. Correspondence inside Coq: the pinv specification on "
-          "exact Fractions inverses, both C routines on the binary32 arrays "
-          "they receive, histories of update / average / diameter / eff.",
+  "text": "Theorems (every n, every network with symmetric non-negative "
+          "conductances, every pseudo-inverse R with R L = L R = I - J/n; "
+          "'connected' = every node reachable from every node along links of "
+          "non-zero conductance): effective resistance R_aa - R_ab - R_ba + "
+          "R_bb is symmetric and zero on the diagonal; it equals the "
+          "potential drop of ANY solution of Kirchhoff's equations for a unit "
+          "current (hence does not depend on which pseudo-inverse was "
+          "computed) and the dissipated energy 1/2 sum c_ij (v_i - v_j)^2, so "
+          "it is non-negative; on connected networks it vanishes only "
+          "between identical nodes; maximum principle (the potential is "
+          "highest at the source), from which the TRIANGLE INEQUALITY, the "
+          "single-link bound c_ab * eff(a,b) <= 1 and Rayleigh's path bound "
+          "(eff never exceeds the resistance of any connecting path, by "
+          "induction over the path) follow; linear scaling with the "
+          "resistances (Laplacian / k, pseudo-inverse * k); series and "
+          "parallel laws for all non-zero symbolic resistances; Foster's "
+          "theorem; a two-node instance shows the hypotheses are satisfiable. "
+          "The two C current-flow routines, regenerated from src_numerics.c "
+          "as Gallina sums, equal the defining sums for every N; the state "
+          "machine with the update_R-resets flag read from the source answers "
+          "every query after any history of updates from the current "
+          "resistances (refuted with a witness when the flag is off). "
+          "Correspondence inside Coq: the pinv specification on exact "
+          "Fractions inverses, both C routines on the binary32 arrays they "
+          "receive, histories of update / average / diameter / eff.",
   "design_ref": "DESIGN.md section 5, C18",
   "note": "trusted: translator c_resistive.py (regex skeleton + ast "
           "expressions, fail-closed); numpy.linalg.pinv is tied to the "
